@@ -13,6 +13,7 @@ use crate::prefix::Prefix;
 use crate::prefix_parser::AcceptsPrefix;
 use crate::pretty_print::PrettyPrint;
 use crate::typechecker::TypeChecker;
+use crate::typechecker::evaluate_const_expr;
 use crate::typed_ast;
 use crate::typed_ast::{
     BinaryOperator, DefineVariable, Expression, Statement, StringPart, UnaryOperator,
@@ -151,7 +152,29 @@ impl BytecodeInterpreter {
                 ..
             } => {
                 self.compile_expression(lhs);
-                self.compile_expression(rhs);
+
+                // For a power with a dimensionful base, the type checker has evaluated the
+                // exponent exactly (in rational arithmetic) to determine the result type.
+                // Use that very exponent at run time as well. Re-evaluating the exponent
+                // expression in floating point can lead to a different rational, e.g.
+                // `(m^2)^(0.1+0.2)` would get the unit m^(2251799813685248/3752999689475413)
+                // while its type is Length^(3/5).
+                let exact_exponent = if *operator == BinaryOperator::Power
+                    && !lhs.get_type_scheme().is_scalar()
+                {
+                    evaluate_const_expr(rhs)
+                        .ok()
+                        .and_then(|exponent| num_traits::ToPrimitive::to_f64(&exponent))
+                } else {
+                    None
+                };
+                if let Some(exponent) = exact_exponent {
+                    let index = self.vm.add_constant(Constant::Scalar(exponent));
+                    self.vm
+                        .add_op1(Op::LoadConstant, index, rhs.full_span());
+                } else {
+                    self.compile_expression(rhs);
+                }
 
                 let op = match operator {
                     BinaryOperator::Add => Op::Add,
